@@ -165,6 +165,37 @@ def battery(quick=True):
                     return back == cfg or "restored configuration does not compare equal"
                 attempt(f"yaml:Configuration[{method},{closed},{unit},{'list' if isinstance(rmin, list) else 'scalar'}]", run)
 
+        # numbers that YAML writes in exponent notation (below 1e-4, above 1e16) and negative numbers
+        def tiny_config():
+            cfg = yaw.Configuration.create(rmin=[6e-5, 2.5e-5], rmax=[3e-4, 1e-4], unit="rad", edges=[5e-5, 3e-3, 0.25, 1.3], closed="left", rweight=-1.5e-5)
+            p = f"{tmp}/cfg_tiny.yml"
+            cfg.to_file(p)
+            back = yaw.Configuration.from_file(p)
+            if not np.array_equal(back.binning.binning.edges, cfg.binning.binning.edges):
+                return "bin edges differ"
+            if not (np.array_equal(back.scales.scales.scale_min, cfg.scales.scales.scale_min) and np.array_equal(back.scales.scales.scale_max, cfg.scales.scales.scale_max)):
+                return "scales differ"
+            if back.scales.rweight != cfg.scales.rweight:
+                return "rweight differs"
+            return back == cfg or "restored configuration does not compare equal"
+        attempt("yaml:Configuration[radian scales and edges below 1e-4, negative rweight]", tiny_config)
+
+        def tiny_catalog():
+            import pandas as pd
+            m = 40
+            d = pd.DataFrame(dict(ra=np.concatenate([10 + rng.uniform(0, 1e-6, m), 20 + rng.uniform(0, 1e-6, m)]), dec=rng.uniform(-1e-6, 1e-6, 2 * m),
+                                  w=rng.uniform(1e-7, 9e-7, 2 * m), pid=np.repeat([0, 1], m)))
+            cat = yaw.Catalog.from_dataframe(f"{tmp}/cat_tiny", d, ra_name="ra", dec_name="dec", weight_name="w", patch_name="pid", degrees=True)
+            back = yaw.Catalog(f"{tmp}/cat_tiny")
+            for i in cat.keys():
+                ma, mb = cat[i].meta, back[i].meta
+                if (ma.num_records, ma.sum_weights) != (mb.num_records, mb.sum_weights) or type(mb.sum_weights) is not type(ma.sum_weights):
+                    return f"patch {i}: num_records / sum_weights differ after re-opening ({ma.sum_weights!r} vs {mb.sum_weights!r})"
+                if not np.array_equal(ma.center.data, mb.center.data) or not np.array_equal(ma.radius.data, mb.radius.data):
+                    return f"patch {i}: centre / radius differ after re-opening"
+            return True
+        attempt("cache:Catalog[compact patches: radius and sum of weights below 1e-4]", tiny_catalog)
+
         # ---- patch metadata through YAML, catalogs through their cache ----------------------------
         import pandas as pd
         n = 300
